@@ -32,6 +32,44 @@ func vfValidPrefix6(s string) bool {
 // vfModelUnsupported marks input the models do not cover (engine: path ends inconclusive).
 func vfModelUnsupported(what string) {}
 
+// vfCalib returns a calibration fact about the real conversion functions, measured natively
+// by TestVfModelCalibrate at the start of every check run and handed to the engine
+// (so that the models follow the real code instead of freezing one behaviour).
+// "concrete-nh-emits-pop-top": does rib.ConcreteNextHopProto report the pop-top-label leaf?
+// (the generic gNMI -> protobuf conversion drops boolean leaves; the function copies it
+// explicitly since the fix FX-C07-pop-top-label).
+func vfCalib(name string) bool { return vfMeasureCalib()[name] }
+
+// vfMeasureCalib measures the calibration facts against the real functions (native only).
+func vfMeasureCalib() map[string]bool {
+	tr := true
+	idx := uint64(1)
+	p, err := ConcreteNextHopProto(&aft.Afts_NextHop{Index: &idx, PopTopLabel: &tr})
+	return map[string]bool{
+		"concrete-nh-emits-pop-top": err == nil && p.GetNextHop().GetPopTopLabel().GetValue(),
+	}
+}
+
+// vfMergeBytes: ygot merges a slice leaf by appending the source elements that the destination lacks.
+func vfMergeBytes(dst, src aft.Binary) aft.Binary {
+	if len(dst) == 0 {
+		return append(aft.Binary{}, src...)
+	}
+	out := append(aft.Binary{}, dst...)
+	for _, b := range src {
+		found := false
+		for _, x := range dst {
+			if x == b {
+				found = true
+			}
+		}
+		if !found {
+			out = append(out, b)
+		}
+	}
+	return out
+}
+
 func vfU64p(v uint64) *uint64 { return &v }
 func vfStrp(v string) *string { return &v }
 
@@ -192,8 +230,12 @@ func vfModelCandidateRIB(a *aftpb.Afts) (*aft.RIB, error) {
 			if n.NetworkInstance != nil {
 				ent.NetworkInstance = vfStrp(n.NetworkInstance.Value)
 			}
+			if n.PopTopLabel != nil {
+				b := n.PopTopLabel.Value
+				ent.PopTopLabel = &b
+			}
 			if n.IpAddress != nil || n.MacAddress != nil || n.InterfaceRef != nil || n.IpInIp != nil || n.Gre != nil ||
-				len(n.EncapHeader) != 0 || len(n.PushedMplsLabelStack) != 0 || n.PopTopLabel != nil ||
+				len(n.EncapHeader) != 0 || len(n.PushedMplsLabelStack) != 0 ||
 				n.EncapsulateHeader != 0 || n.DecapsulateHeader != 0 || n.TunnelSrcIpAddress != nil || n.VniLabel != nil {
 				vfModelUnsupported("next-hop payload field outside the model")
 			}
@@ -234,7 +276,7 @@ func vfModelMergeStructInto(dst, src ygot.GoStruct, opts ...ygot.MergeOpt) error
 				cur.NextHopGroupNetworkInstance = vfStrp(*v.NextHopGroupNetworkInstance)
 			}
 			if v.EntryMetadata != nil {
-				cur.EntryMetadata = append(aft.Binary{}, v.EntryMetadata...)
+				cur.EntryMetadata = vfMergeBytes(cur.EntryMetadata, v.EntryMetadata)
 			}
 			continue
 		}
@@ -253,7 +295,7 @@ func vfModelMergeStructInto(dst, src ygot.GoStruct, opts ...ygot.MergeOpt) error
 				cur.NextHopGroupNetworkInstance = vfStrp(*v.NextHopGroupNetworkInstance)
 			}
 			if v.EntryMetadata != nil {
-				cur.EntryMetadata = append(aft.Binary{}, v.EntryMetadata...)
+				cur.EntryMetadata = vfMergeBytes(cur.EntryMetadata, v.EntryMetadata)
 			}
 			continue
 		}
@@ -272,7 +314,7 @@ func vfModelMergeStructInto(dst, src ygot.GoStruct, opts ...ygot.MergeOpt) error
 				cur.NextHopGroupNetworkInstance = vfStrp(*v.NextHopGroupNetworkInstance)
 			}
 			if v.EntryMetadata != nil {
-				cur.EntryMetadata = append(aft.Binary{}, v.EntryMetadata...)
+				cur.EntryMetadata = vfMergeBytes(cur.EntryMetadata, v.EntryMetadata)
 			}
 			continue
 		}
@@ -315,6 +357,10 @@ func vfModelMergeStructInto(dst, src ygot.GoStruct, opts ...ygot.MergeOpt) error
 		if cur := d.Afts.NextHop[k]; cur != nil {
 			if v.NetworkInstance != nil {
 				cur.NetworkInstance = vfStrp(*v.NetworkInstance)
+			}
+			if v.PopTopLabel != nil {
+				b := *v.PopTopLabel
+				cur.PopTopLabel = &b
 			}
 			continue
 		}
@@ -374,6 +420,11 @@ func vfModelConcreteMPLSProto(e *aft.Afts_LabelEntry) (*aftpb.Afts_LabelEntryKey
 
 func vfModelConcreteNextHopProto(e *aft.Afts_NextHop) (*aftpb.Afts_NextHopKey, error) {
 	p := &aftpb.Afts_NextHop{}
+	// NOTE: mirrors the real function (checked by TestVfModelAgreement): pop-top-label is handled
+	// exactly as rib.ConcreteNextHopProto handles it.
+	if e.PopTopLabel != nil && vfCalib("concrete-nh-emits-pop-top") {
+		p.PopTopLabel = &wpb.BoolValue{Value: *e.PopTopLabel}
+	}
 	if e.NetworkInstance != nil {
 		p.NetworkInstance = &wpb.StringValue{Value: *e.NetworkInstance}
 	}
